@@ -78,6 +78,14 @@ claim('C10', 'dimension-identity coherence on provenance terms (same permutation
       'metadata is carried and no rearranging function rebuilds axes from labels. Element-wise equality and composition laws are not decided.',
       'Assumes ndarray.transpose / repeat / squeeze and np.rollaxis documented semantics.', 'DESIGN.md §3 C10')
 
+claim('C11', 'order-constant agreement + guard-dominates-action + recursion-progress rule on affine terms + splice coherence + freshness of renamed axes',
+      'Decides structural clauses of C11: labels are enumerated with meshgrid ij and C-order ravel while values are regrouped by a C-order reshape; the reshape in '
+      'flatten is reached only after the contiguity test dims == self.dims[insert:insert+n]; the recursive call uses an insertion point clamped to ndim - n '
+      '(progress); the grouped axis is made of the member axes in array order and inserted where the guard looked; unflatten splices shape and axes at the same '
+      'index with the same members and accumulates over grouped axes; reshape applies squeeze(dim), newaxis(dim, pos=i), flatten(group, insert=i) in pipeline order '
+      'and renames private copies of the axes only. The value at each grouped position follows from NumPy C-order semantics (trusted).',
+      'Assumes ndarray.reshape C order and np.meshgrid(indexing=ij)+ravel row-major enumeration.', 'DESIGN.md §3 C11')
+
 UNDER_CONSTRUCTION = 'checker under construction in this session (claimed in DESIGN.md, not yet registered)'
 for pid in ['C01', 'C03', 'C04', 'C05', 'C06', 'C07', 'C08', 'C09', 'C10', 'C11', 'C12', 'C13', 'C14', 'C15', 'C16',
             'C17', 'C18', 'C19']:
